@@ -1746,7 +1746,7 @@ pub fn run(tier: Tier) -> i32 {
     // quick: singles-only alphabet d<=5 on eight configurations (retry/cap mixes with caps None /
     // 30 s / 600 s, ignore_naks, back-pressure), full alphabet d<=3 on
     // one configuration per cap class;
-    // thorough: the full 2x2x2 configuration cube (full alphabet, d<=5), singles-only d<=8, back-pressure d<=5 (singles d<=7), caps 600/300 d<=5.
+    // thorough: the full 2x2x2 configuration cube (full alphabet, d<=5; d<=4 with ignore_naks), singles-only d<=8, back-pressure d<=4 (singles d<=7), caps 600/300 d<=5.
     // (The IP-source dimension multiplies the bound states by the four possible server addresses,
     // the optional-ACK variants add an "order/attempt clauses dropped" copy of every lease state.)
     let mut cfgs: Vec<(Cfg, usize)> = vec![];
@@ -1770,15 +1770,15 @@ pub fn run(tier: Tier) -> i32 {
         for ignore_naks in [false, true] {
             for retry_short in [false, true] {
                 for max_lease in [None, Some(30)] {
-                                        cfgs.push((Cfg { retry_short, max_lease, ignore_naks, alpha: 0, bp: false }, 5));
+                                        cfgs.push((Cfg { retry_short, max_lease, ignore_naks, alpha: 0, bp: false }, if ignore_naks { 4 } else { 5 }));
                 }
             }
         }
         cfgs.push((Cfg { retry_short: false, max_lease: None, ignore_naks: false, alpha: 1, bp: false }, 8));
         cfgs.push((Cfg { retry_short: true, max_lease: Some(30), ignore_naks: false, alpha: 1, bp: false }, 8));
         // device back-pressure as an extra event dimension
-        cfgs.push((Cfg { retry_short: false, max_lease: None, ignore_naks: false, alpha: 0, bp: true }, 5));
-        cfgs.push((Cfg { retry_short: true, max_lease: Some(30), ignore_naks: false, alpha: 0, bp: true }, 5));
+        cfgs.push((Cfg { retry_short: false, max_lease: None, ignore_naks: false, alpha: 0, bp: true }, 4));
+        cfgs.push((Cfg { retry_short: true, max_lease: Some(30), ignore_naks: false, alpha: 0, bp: true }, 4));
         cfgs.push((Cfg { retry_short: false, max_lease: None, ignore_naks: true, alpha: 1, bp: true }, 7));
         // caps long enough for the strong renew-and-rebind clause to be judged on capped leases
         cfgs.push((Cfg { retry_short: false, max_lease: Some(600), ignore_naks: false, alpha: 0, bp: false }, 5));
